@@ -254,7 +254,7 @@ def run(ctx):
         ctx.evaluations += 1
         if v == 'fail':
             ctx.violation(case, 'regression corpus %s: %s' % (os.path.basename(path), why))
-    failures = hyp.fan_out(ctx, 'pylib.props.c15', 'gen_case', 350 if quick else 12000, extra={'tier': ctx.tier})
+    failures = hyp.fan_out(ctx, 'pylib.props.c15', 'gen_case', 900 if quick else 15000, extra={'tier': ctx.tier})
     seen = set()
     for f in failures:
         c = f['why'].split(':')[0]
